@@ -94,6 +94,17 @@ class LoopInfo:
             if isinstance(n, ast.Assign) and len(n.targets) == 1 and isinstance(n.targets[0], ast.Name):
                 if self._is_len(n.value):
                     self.lenlike.add(n.targets[0].id)
+        # iteration counts: parameters whose default is a positive integer and that are never re-bound (nswp=22, resets=4, nmax=40): the
+        # documented domain of every property is "at least one sweep / iteration"
+        self.counts = set()
+        a = getattr(fn, "args", None)
+        if a is not None:
+            pos = a.posonlyargs + a.args
+            for prm, dflt in list(zip(pos[len(pos) - len(a.defaults):], a.defaults)) + [(k, d) for k, d in zip(a.kwonlyargs, a.kw_defaults) if d is not None]:
+                if isinstance(dflt, ast.Constant) and isinstance(dflt.value, int) and not isinstance(dflt.value, bool) and dflt.value >= 1:
+                    self.counts.add(prm.arg)
+            stored = {n.id for n in ast.walk(fn) if isinstance(n, ast.Name) and isinstance(n.ctx, (ast.Store, ast.Del))}
+            self.counts -= stored
 
     @staticmethod
     def _is_len(e):
@@ -104,6 +115,8 @@ class LoopInfo:
         if self._is_len(e):
             return True
         if isinstance(e, ast.Name) and e.id in self.lenlike:
+            return True
+        if isinstance(e, ast.Name) and e.id in self.counts:
             return True
         if isinstance(e, ast.Constant) and isinstance(e.value, int) and e.value >= 1:
             return True
@@ -603,7 +616,28 @@ def quantifier_domain(fn: ast.FunctionDef) -> dict:
             for nm in names:
                 if nm.id in params and prints:
                     dom[nm.id] = False
-        if isinstance(n, ast.Compare) and len(n.ops) == 1 and isinstance(n.ops[0], (ast.Eq, ast.NotEq)) and isinstance(n.left, ast.Name) and n.left.id in params \
+            # a local that carries the flag (`verbose = options.verbose`): every `if <name>:` of the function only reports (prints, takes times)
+            if prints and isinstance(t, ast.Name) and t.id not in params and not n.orelse:
+                def reporting(body):
+                    for st in body:
+                        if isinstance(st, ast.Expr) and isinstance(st.value, ast.Call) and isinstance(st.value.func, ast.Name) and st.value.func.id == "print":
+                            continue
+                        if isinstance(st, ast.Assign) and any(isinstance(x, ast.Call) and norm(x.func).rsplit(".", 1)[-1] in ("now", "perf_counter", "time")
+                                                              for x in ast.walk(st.value)):
+                            continue
+                        if isinstance(st, ast.If) and not st.orelse and reporting(st.body):
+                            continue
+                        return False
+                    return True
+                same = [m for m in ast.walk(fn) if isinstance(m, ast.If) and isinstance(m.test, ast.Name) and m.test.id == t.id]
+                if all(not m.orelse and reporting(m.body) for m in same):
+                    dom[t.id] = False
+            # the same flag carried in an options record: `if opts.verbose: print(...)` (an attribute of a parameter or of a local record)
+            if prints and isinstance(t, ast.Attribute) and isinstance(t.value, ast.Name) and all(
+                    isinstance(st, (ast.Expr, ast.Assign)) for st in n.body) and not n.orelse:
+                dom[norm(t)] = False
+        if isinstance(n, ast.Compare) and len(n.ops) == 1 and isinstance(n.ops[0], (ast.Eq, ast.NotEq)) and isinstance(n.left, (ast.Name, ast.Attribute)) \
                 and isinstance(n.comparators[0], ast.Constant) and n.comparators[0].value == "fro":
+            # (the option may arrive as a parameter, as a local copy of one or as a field of an options record)
             dom[norm(ast.Compare(left=n.left, ops=[ast.Eq()], comparators=n.comparators))] = False
     return dom
